@@ -247,6 +247,7 @@ def run(prop, seed, budget, ctx):
         for f in df: f["features"] = f.get("features", []); hist["P:" + f["why"][0]] += 1
         failures += df; distinct |= dd
         for k, v in dh.items(): hist["discriminated:" + k] += v
+        of, on = run_ordered(rnd, seed, budget, hist, distinct); failures += of; dn += on
         return {"evaluations": len(meta) + dn, "distinct_nontrivial": len(distinct),
                 "rule": "generated types x values obtained by deserializing valid data x random options; plus discriminated unions (serialize adds the discriminator, the value "
                         "round-trips); non-trivial = non-leaf type; distinct by (type, datum, options)",
@@ -326,6 +327,47 @@ def run_fallback(rnd, g, budget, hist, distinct):
     return failures, n
 
 
+def run_ordered(rnd, seed, budget, hist, distinct):
+    """C05 on classes whose fields are reordered (order value / after / before / chains / class-level overriding, inherited fields,
+    serialized methods in between): the order is presentation only - every field is written, and the value comes back"""
+    import engine_order, dataclasses
+    from apischema import deserialize, serialize
+    classes = [engine_order.gen_class(rnd, 5000 + i) for i in range(120 * budget)]
+    # chains: order([...]) sugar over 3-5 fields, declared in another order than the chain
+    chain_lines = []
+    for i in range(30 * budget):
+        names = [f"f{j}" for j in range(rnd.randint(3, 5))]; chain = names[:]; rnd.shuffle(chain)
+        cname = f"OC{i}"
+        chain_lines += [f"@order({chain!r})", "@dataclass", f"class {cname}:"] + [f"    {n}: int = 0" for n in names] + [""]
+        classes.append((cname, None, names, len(names), {"chain": chain}, []))
+    mod = engine_order.build([l for c in classes if c[1] for l in c[1] + [""]] + chain_lines, f"rt{seed}")
+    failures, n = [], 0
+    for (cname, lines, names, nf, ords, ov) in classes:
+        cls = getattr(mod, cname)
+        if "chain" not in ords:
+            # (a field placed after / before an absent name or on an after / before cycle is dropped: finding KF17 of C16, not this part)
+            eff = dict(ords); eff.update({n_: o_ for n_, o_ in ov})
+            def anchored(n_, fuel=len(names) + 1):
+                o_ = eff[n_]
+                if o_[0] in ("none", "value"): return True
+                return fuel > 0 and o_[1] in eff and anchored(o_[1], fuel - 1)
+            if not all(anchored(n_) for n_ in names): hist["ordered:excluded-unanchored"] += 1; continue
+        v = cls(**{f.name: rnd.choice([1, 2, 3, -5, 40]) for f in dataclasses.fields(cls)}); n += 1
+        hist["ordered:" + ("chain" if "chain" in ords else "class")] += 1
+        distinct.add(case_hash("ordered", cname, repr(ords), repr(ov)))
+        why = []
+        try:
+            s = serialize(cls, v)
+            back = deserialize(cls, s, additional_properties=True)
+            if back != v: why.append("deserialize(serialize(v))-differs-from-v")
+        except Exception as e: s = None; why.append("round-trip-raises:" + type(e).__name__)
+        if why:
+            failures.append({"kind": "P", "part": "ordered", "features": ["ordered"], "class_src": lines or [l for l in chain_lines if True][:0] + [f"@order({ords['chain']!r}) dataclass {cname} with int fields {names}"],
+                             "value": repr(v), "serialized": repr(s), "why": why, "k_ok": None})
+            hist["P:" + why[0].split(":")[0]] += 1
+    return failures, n
+
+
 def _json_value(rnd, depth):
     r = rnd.random()
     if depth <= 0 or r < 0.35:
@@ -381,6 +423,8 @@ def is_known(kid, case):
 
 def replay(prop, case, ctx):
     from apischema import deserialize, serialize
+    if case.get("part") == "ordered":
+        return {"class": case["class_src"], "value": case["value"], "serialized": case["serialized"], "recorded": case["why"]}
     if case.get("part") == "fallback":
         d = proto_py(case["d"])
         return {"datum": repr(d), "rebuilt_with": case["features"][1:], "plain_image": repr(serialize(d)), "recorded": case["why"], "recorded_images": case["got"]}
